@@ -280,6 +280,13 @@ def _bounded_fallback(modname, clsname, prop, tier):
     depth, budget = (7, 240.0) if tier == 'thorough' else (5, 90.0)
     try:
         r = WE.explore(modname, clsname, depth=depth, budget_s=budget, only=_props_for_explorer(prop))
+        # the explorer rebuilds the wrapper in every abstract state, which resets whatever the closure hides; whole histories
+        # on ONE wrapper see such state
+        v = WE.linear_search(modname, clsname, _props_for_explorer(prop), depth=(7 if tier == 'thorough' else 6),
+                             budget_s=(60.0 if tier == 'thorough' else 25.0))
+        r['linear_histories'] = 'call sequences over 4 keys up to length %d (with load/clear/dump up to 5) on one wrapper' % (7 if tier == 'thorough' else 6)
+        if v is not None and WE.replay_history(v):
+            r['violations'].append(v)
     except Exception:
         return {'error': traceback.format_exc()[-800:]}
     r['scope'] = ('real %s.%s; keys from a universe of 3 (+1 unhashable, +1 raising, +1 raising key generation); maxsize in {1,2}; '
